@@ -6,9 +6,22 @@ import os
 import re
 
 rows = []
+refs = []
 for d in sorted(glob.glob('/verif/seeded/*/meta.json')):
     m = json.load(open(d))
     name = m['id']
+    if name.startswith('refactor-'):
+        first = ''
+        for line in m.get('readme', '').split('\n'):
+            line = line.strip(' #*-')
+            if len(line) > 20:
+                first = line
+                break
+        res = []
+        for c, v in sorted(m.get('checks', {}).items()):
+            res.append('%s: %s' % (c, {0: 'clean', 1: 'VIOLATION (false alarm)', 2: 'undecided (exit 2)'}.get(v['rc'], str(v['rc']))))
+        refs.append((name, m.get('suite_passes_patched'), first[:110], '; '.join(res)))
+        continue
     first = ''
     for line in m.get('what_it_needs', '').split('\n'):
         line = line.strip(' #*-')
@@ -23,4 +36,10 @@ for d in sorted(glob.glob('/verif/seeded/*/meta.json')):
 print('| seeded change | valid | what it is | result of our checks |')
 print('|---|---|---|---|')
 for r in rows:
+    print('| %s | %s | %s | %s |' % (r[0], 'yes' if r[1] else 'NO', r[2].replace('|', '/'), r[3]))
+
+print()
+print('| refactoring | suite passes | what it is | result of our checks |')
+print('|---|---|---|---|')
+for r in refs:
     print('| %s | %s | %s | %s |' % (r[0], 'yes' if r[1] else 'NO', r[2].replace('|', '/'), r[3]))
